@@ -13,7 +13,7 @@ use crate::engine::*;
 use crate::mockterm::RecTerm;
 use proptest::prelude::*;
 use serde::{Deserialize, Serialize};
-use std::collections::BTreeSet;
+use std::collections::{BTreeMap, BTreeSet};
 use std::sync::LazyLock;
 use surf_n_term::render::{CellKind, TerminalRenderer};
 use surf_n_term::{
@@ -143,6 +143,23 @@ pub struct RenderLoop {
     /// new renderer, the screen content itself is untouched
     #[serde(default)]
     pub resize_polls: Vec<u8>,
+    /// persistent content: painted by the handler, below the cells of `frames`, at every
+    /// invocation of an interval (an application that keeps a picture / caption on the screen
+    /// while other parts change), possibly only while the terminal keeps up
+    #[serde(default)]
+    pub layers: Vec<Layer>,
+}
+
+/// Content the handler of a render-loop session paints again at every invocation
+/// `from .. from + len`, as long as `Terminal::frames_pending()` (the back pressure the
+/// library reports to the application) does not exceed `max_pending`
+#[derive(Clone, Debug, Serialize, Deserialize)]
+pub struct Layer {
+    pub puts: Vec<Put>,
+    pub from: u8,
+    pub len: u8,
+    /// 255 = painted whatever the lag
+    pub max_pending: u8,
 }
 
 // ---- reference screen -------------------------------------------------------------------
@@ -185,7 +202,20 @@ struct Screen {
     cursor: (usize, usize),
     face: Face,
     problems: Vec<(String, String)>,
+    /// number of forced clears (clear(), frame drop + clear(), renderer re-creation) issued so far
+    epoch: usize,
+    /// placement -> value of `epoch` when it was (last) drawn
+    drawn_at: BTreeMap<PKey, usize>,
+    /// placements that are on the screen although the renderer issued their ImageErase: the
+    /// erase was part of a frame that was dropped from the output queue (listed design limit)
+    erase_lost: BTreeSet<PKey>,
+    /// placements on the screen whose ImageErase was issued by the clear() that answers a
+    /// Resize event and was discarded, in the same round of the render loop, by frames_drop()
+    erase_lost_resize: BTreeSet<PKey>,
 }
+
+/// identity of a placement: image content hash, row, column
+type PKey = (u64, usize, usize);
 
 #[derive(Clone, Debug, PartialEq, Eq)]
 enum Shown {
@@ -205,6 +235,10 @@ impl Screen {
             cursor: (0, 0),
             face: Face::default(),
             problems: Vec::new(),
+            epoch: 0,
+            drawn_at: BTreeMap::new(),
+            erase_lost: BTreeSet::new(),
+            erase_lost_resize: BTreeSet::new(),
         }
     }
 
@@ -285,6 +319,12 @@ impl Screen {
                 let p = Placement { key: img.hash(), row: pos.row, col: pos.col, height: size.height, width: size.width };
                 // same image at the same cell = same placement id: replaced, not duplicated
                 self.placements.retain(|q| !(q.key == p.key && q.row == p.row && q.col == p.col));
+                // drawn again: whatever happened to an earlier erase of it, the placement on
+                // the screen is now this one
+                let pk = (p.key, p.row, p.col);
+                self.erase_lost.remove(&pk);
+                self.erase_lost_resize.remove(&pk);
+                self.drawn_at.insert(pk, self.epoch);
                 self.placements.push(p);
             }
             TerminalCommand::ImageErase(img, pos) => {
@@ -293,12 +333,41 @@ impl Screen {
                     Some(pos) => self.placements.retain(|q| !(q.key == key && q.row == pos.row && q.col == pos.col)),
                     None => self.placements.retain(|q| q.key != key),
                 }
+                let gone = |pk: &PKey| pk.0 == key && pos.map_or(true, |pos| (pk.1, pk.2) == (pos.row, pos.col));
+                self.erase_lost.retain(|pk| !gone(pk));
+                self.erase_lost_resize.retain(|pk| !gone(pk));
+                self.drawn_at.retain(|pk, _| !gone(pk));
             }
             other => self.problems.push((
                 "command/unexpected".into(),
                 format!("renderer issued {other:?}"),
             )),
         }
+    }
+
+    /// Placements that are on this screen and whose erase is lost with the discarded command
+    /// sequence `cmds` (commands that were issued, in this order, after everything the screen
+    /// has executed, and never reach it): an ImageErase that is not followed by a re-draw of
+    /// the same image at the same cell within `cmds`.
+    fn erases_lost_with<'a>(&self, cmds: impl IntoIterator<Item = &'a TerminalCommand>) -> BTreeSet<PKey> {
+        let mut lost: BTreeSet<PKey> = BTreeSet::new();
+        for cmd in cmds {
+            match cmd {
+                TerminalCommand::ImageErase(img, Some(pos)) => {
+                    lost.insert((img.hash(), pos.row, pos.col));
+                }
+                TerminalCommand::ImageErase(img, None) => {
+                    let key = img.hash();
+                    lost.extend(self.placements.iter().filter(|p| p.key == key).map(|p| (p.key, p.row, p.col)));
+                }
+                TerminalCommand::Image(img, pos) => {
+                    lost.remove(&(img.hash(), pos.row, pos.col));
+                }
+                _ => {}
+            }
+        }
+        lost.retain(|pk| self.placements.iter().any(|p| (p.key, p.row, p.col) == *pk));
+        lost
     }
 
     fn covering(placements: &[Placement], r: usize, c: usize) -> BTreeSet<(u64, usize, usize)> {
@@ -452,12 +521,36 @@ struct Run {
     labels: BTreeSet<&'static str>,
 }
 
-fn classify_mismatch(model: &Shown, want: &Shown, dropped_before: bool) -> &'static str {
+/// the listed design limit: an image whose erase was issued in a frame that was dropped
+const KNOWN_STALE: &str = "stale-image-after-dropped-frames";
+/// see `Screen::erase_lost_resize`
+const RESIZE_STALE: &str = "stale-image-resize-clear-discarded-by-drop";
+
+fn classify_mismatch(screen: &Screen, model: &Shown, want: &Shown) -> &'static str {
+    let none = BTreeSet::new();
     match (model, want) {
-        (Shown::Images(m), Shown::Images(w)) if m.is_superset(w) && dropped_before => "stale-image-after-dropped-frames",
-        (Shown::Images(_), Shown::Text(..)) if dropped_before => "stale-image-after-dropped-frames",
-        (Shown::Images(_), Shown::Text(..)) => "stale-image",
-        (Shown::Images(_), Shown::Images(_)) => "wrong-images",
+        (Shown::Images(m), w) => {
+            let wanted = if let Shown::Images(w) = w { w } else { &none };
+            if !m.is_superset(wanted) {
+                return "wrong-images";
+            }
+            // every image the surface has is shown, plus images it does not have: stale images.
+            // The design limit covers exactly the placements whose erase was part of a dropped
+            // frame; any other stale image is a violation even after frames were dropped
+            let unexplained: Vec<&PKey> = m.difference(wanted).filter(|pk| !screen.erase_lost.contains(*pk)).collect();
+            if unexplained.is_empty() {
+                KNOWN_STALE
+            } else if unexplained.iter().all(|pk| screen.erase_lost_resize.contains(*pk)) {
+                RESIZE_STALE
+            } else if unexplained.iter().any(|pk| screen.drawn_at.get(*pk).is_some_and(|e| *e < screen.epoch)) {
+                // drawn before a forced clear that has been issued since
+                "stale-image-survives-forced-clear"
+            } else if matches!(w, Shown::Images(_)) {
+                "wrong-images"
+            } else {
+                "stale-image"
+            }
+        }
         (Shown::Text(..), Shown::Images(_)) => "missing-image",
         (Shown::Text(a, _, ha), Shown::Text(b, _, hb)) if a != b || ha != hb => "wrong-character",
         _ => "wrong-face",
@@ -465,7 +558,8 @@ fn classify_mismatch(model: &Shown, want: &Shown, dropped_before: bool) -> &'sta
 }
 
 /// Oracles (1) and (2) for one delivered frame: the reference screen against the display the
-/// surface denotes, and against a from-scratch repaint of the same surface.
+/// surface denotes, and against a from-scratch repaint of the same surface. A mismatch of the
+/// listed design-limit class is reported only if the frame has no mismatch of another class.
 #[allow(clippy::too_many_arguments)]
 fn check_display(
     screen: &Screen,
@@ -473,26 +567,31 @@ fn check_display(
     h: usize,
     w: usize,
     tsize: TerminalSize,
-    dropped_before: bool,
     ctx: &str,
     cmds: &[TerminalCommand],
 ) -> Result<Expected, Fail> {
     let exp = expected_of(snap, h, w, tsize);
     let model = screen.display();
+    let mut deferred: Option<Fail> = None;
     // (1) ground truth
     for (i, (m, e)) in model.iter().zip(exp.shown.iter()).enumerate() {
         if exp.dont_care[i] {
             continue;
         }
         if m != e {
-            let class = classify_mismatch(m, e, dropped_before);
-            return Err(Fail::new(
+            let class = classify_mismatch(screen, m, e);
+            let fail = Fail::new(
                 format!("display/{class}"),
                 format!(
                     "{ctx}: cell ({},{}) of the {h}x{w} terminal shows {} but the surface has {}; commands of this frame: {:?}",
                     i / w.max(1), i % w.max(1), show(m), show(e), cmds
                 ),
-            ));
+            );
+            if class == KNOWN_STALE || class == RESIZE_STALE {
+                deferred.get_or_insert(fail);
+                continue;
+            }
+            return Err(fail);
         }
     }
     // (2) differential: brand-new renderer, blank terminal, same surface
@@ -517,18 +616,26 @@ fn check_display(
             let class = if exp.dont_care[i] {
                 "wide-char-partly-under-image"
             } else {
-                classify_mismatch(m, s, dropped_before)
+                classify_mismatch(screen, m, s)
             };
-            return Err(Fail::new(
+            let fail = Fail::new(
                 format!("differential/{class}"),
                 format!(
                     "{ctx}: cell ({},{}) shows {} but repainting the same surface from scratch on a blank terminal gives {}; commands of this frame: {:?}",
                     i / w.max(1), i % w.max(1), show(m), show(s), cmds
                 ),
-            ));
+            );
+            if class == KNOWN_STALE || class == RESIZE_STALE {
+                deferred.get_or_insert(fail);
+                continue;
+            }
+            return Err(fail);
         }
     }
-    Ok(exp)
+    match deferred {
+        Some(fail) => Err(fail),
+        None => Ok(exp),
+    }
 }
 
 pub fn run_case(case: &Case) -> Outcome {
@@ -541,7 +648,6 @@ pub fn run_case(case: &Case) -> Outcome {
     let mut renderer = TerminalRenderer::new(&mut term, false)
         .map_err(|e| Fail::new("renderer/new-error", format!("{e:?}")))?;
     let mut last_delivered: Vec<(Position, Cell)> = Vec::new();
-    let mut dropped_before = false;
     let mut run = Run { frames: 0, labels: BTreeSet::new() };
     let mut prev_snapshot: Option<Vec<Cell>> = None;
 
@@ -567,23 +673,31 @@ pub fn run_case(case: &Case) -> Outcome {
                 for cmd in term.take() {
                     screen.apply(&cmd);
                 }
+                screen.epoch += 1;
                 if nonblank {
                     run.labels.insert("clear-on-nonblank-screen");
                 }
             }
             Op::Dropped(frames) => {
+                let mut discarded: Vec<TerminalCommand> = Vec::new();
                 for puts in frames {
                     paint(&mut renderer.surface(), puts, h, w);
                     guard_val(|| renderer.frame(&mut term))?
                         .map_err(|e| Fail::new("renderer/frame-error", format!("{e:?}")))?;
-                    term.take(); // never reaches the terminal
+                    discarded.extend(term.take()); // never reaches the terminal
                 }
+                // the design limit: erases that were part of the dropped frames
+                let lost = screen.erases_lost_with(&discarded);
+                if !lost.is_empty() {
+                    run.labels.insert("image-erase-in-dropped-frame");
+                }
+                screen.erase_lost.extend(lost);
                 guard_val(|| renderer.clear(&mut term))?
                     .map_err(|e| Fail::new("renderer/clear-error", format!("{e:?}")))?;
                 for cmd in term.take() {
                     screen.apply(&cmd);
                 }
-                dropped_before = true;
+                screen.epoch += 1;
                 run.labels.insert("dropped-frames");
             }
             Op::Recreate { height, width, scramble } => {
@@ -595,10 +709,13 @@ pub fn run_case(case: &Case) -> Outcome {
                 h = *height as usize;
                 w = *width as usize;
                 // reflow: arbitrary text content, no images (they were erased by clear())
-                let stale_images = screen.placements.clone();
+                let old = screen;
                 screen = Screen::new(h, w);
                 // placements that survived clear() stay where they were (kitty keeps them)
-                screen.placements = stale_images;
+                screen.placements = old.placements;
+                screen.drawn_at = old.drawn_at;
+                screen.erase_lost = old.erase_lost;
+                screen.epoch = old.epoch + 1;
                 if h > 0 && w > 0 {
                     for (i, (ch, face)) in scramble.iter().enumerate() {
                         let idx = (i * 7 + *ch as usize) % (h * w);
@@ -624,7 +741,7 @@ pub fn run_case(case: &Case) -> Outcome {
                 if let Some((sig, msg)) = screen.problems.first() {
                     return Err(Fail::new(sig.clone(), format!("step {step}: {msg}; commands {:?}", cmds)));
                 }
-                let exp = check_display(&screen, &snap, h, w, term.size, dropped_before, &format!("step {step} (frame #{})", run.frames), &cmds)?;
+                let exp = check_display(&screen, &snap, h, w, term.size, &format!("step {step} (frame #{})", run.frames), &cmds)?;
                 // labels
                 if let Some(prev) = &prev_snapshot {
                     if prev.len() == snap.len() {
@@ -683,9 +800,12 @@ struct LoopTerm {
     size: TerminalSize,
     caps: TerminalCaps,
     open: Vec<TerminalCommand>,
-    /// (frame index, rendered after a frame drop, commands)
-    queue: std::collections::VecDeque<(usize, bool, Vec<TerminalCommand>)>,
-    delivered: Vec<(usize, bool, Vec<TerminalCommand>)>,
+    queue: std::collections::VecDeque<Chunk>,
+    delivered: Vec<Chunk>,
+    /// what each `frames_drop` discarded
+    discarded: Vec<Discarded>,
+    /// the poll of the current round reported a Resize event
+    resize_round: bool,
     tag: usize,
     polls: usize,
     drops: usize,
@@ -696,11 +816,32 @@ struct LoopTerm {
     resizes: usize,
 }
 
+/// Commands between two flushes of the output queue (a "frame" of `frames_pending`)
+struct Chunk {
+    /// handler invocation the commands belong to
+    tag: usize,
+    /// number of frame drops / of forced clears (frame drops + Resize events) that preceded
+    /// the commands of this chunk
+    drops: usize,
+    clears: usize,
+    cmds: Vec<TerminalCommand>,
+}
+
+/// What one `frames_drop` threw away
+struct Discarded {
+    /// the commands of the queued frames, in order
+    frames: Vec<TerminalCommand>,
+    /// the commands issued in the round that dropped the frames, before it did so
+    open: Vec<TerminalCommand>,
+    /// that round had started with a Resize event
+    resize_round: bool,
+}
+
 impl LoopTerm {
     fn close_chunk(&mut self) {
         if !self.open.is_empty() {
             let cmds = std::mem::take(&mut self.open);
-            self.queue.push_back((self.tag, self.drops > 0, cmds));
+            self.queue.push_back(Chunk { tag: self.tag, drops: self.drops, clears: self.drops + self.resizes, cmds });
         }
     }
     fn accept(&mut self, n: usize) {
@@ -740,6 +881,7 @@ impl Terminal for LoopTerm {
         }
         let resize = self.resize_polls.iter().any(|p| *p as usize == self.polls);
         self.polls += 1;
+        self.resize_round = resize;
         if resize {
             self.resizes += 1;
             return Ok(Some(surf_n_term::TerminalEvent::Resize(self.size)));
@@ -761,8 +903,9 @@ impl Terminal for LoopTerm {
     }
     fn frames_drop(&mut self) {
         self.drops += 1;
-        self.queue.truncate(1);
-        self.open.clear();
+        let frames = self.queue.drain(1.min(self.queue.len())..).flat_map(|c| c.cmds).collect();
+        let open = std::mem::take(&mut self.open);
+        self.discarded.push(Discarded { frames, open, resize_round: self.resize_round });
     }
     fn capabilities(&self) -> &TerminalCaps {
         &self.caps
@@ -778,6 +921,8 @@ fn run_loop_case(h: usize, w: usize, rl: &RenderLoop) -> Outcome {
         open: Vec::new(),
         queue: Default::default(),
         delivered: Vec::new(),
+        discarded: Vec::new(),
+        resize_round: false,
         tag: 0,
         polls: 0,
         drops: 0,
@@ -809,6 +954,12 @@ fn run_loop_case(h: usize, w: usize, rl: &RenderLoop) -> Outcome {
                 // terminal; on the scripted one a poll never blocks
                 TerminalAction::WaitNoFrame
             } else {
+                for layer in &rl.layers {
+                    let on = step >= layer.from as usize && step < layer.from as usize + layer.len as usize;
+                    if on && term.frames_pending() <= layer.max_pending as usize {
+                        paint(&mut view, &layer.puts, h, w);
+                    }
+                }
                 paint(&mut view, &rl.frames[step], h, w);
                 drawn.push(Some(snapshot(&view)));
                 TerminalAction::Sleep(std::time::Duration::ZERO)
@@ -827,7 +978,37 @@ fn run_loop_case(h: usize, w: usize, rl: &RenderLoop) -> Outcome {
     let mut labels: BTreeSet<&'static str> = BTreeSet::new();
     let mut frames = 0usize;
     let mut last_tag = None;
-    for (tag, after_drop, cmds) in &term.delivered {
+    let mut drops_seen = 0usize;
+    for Chunk { tag, drops, clears, cmds } in &term.delivered {
+        // Frame drops that took place before the commands of this chunk were issued. Everything
+        // issued before such a drop and not discarded by it has reached the screen by now.
+        // `must_go`: images on the screen whose erase was in none of the discarded frames, so
+        // the renderer still knew them when it had to clear
+        let mut must_go: Option<BTreeSet<PKey>> = None;
+        while drops_seen < *drops {
+            let d = &term.discarded[drops_seen];
+            drops_seen += 1;
+            // the design limit: an image on the screen whose erase was part of a dropped frame
+            let lost = screen.erases_lost_with(&d.frames);
+            if !lost.is_empty() {
+                labels.insert("loop:image-erase-in-dropped-frame");
+            }
+            screen.erase_lost.extend(lost);
+            if d.resize_round {
+                let lost: BTreeSet<PKey> = screen.erases_lost_with(&d.open).difference(&screen.erase_lost).cloned().collect();
+                screen.erase_lost_resize.extend(lost);
+            }
+            must_go = Some(
+                screen
+                    .placements
+                    .iter()
+                    .map(|p| (p.key, p.row, p.col))
+                    .filter(|pk| !screen.erase_lost.contains(pk) && !screen.erase_lost_resize.contains(pk))
+                    .collect(),
+            );
+        }
+        let after_drop = *drops > 0;
+        screen.epoch = *clears;
         let cmds: Vec<TerminalCommand> = cmds
             .iter()
             .filter(|c| !matches!(c, TerminalCommand::DecModeSet { mode: surf_n_term::DecMode::SynchronizedOutput, .. }))
@@ -852,18 +1033,29 @@ fn run_loop_case(h: usize, w: usize, rl: &RenderLoop) -> Outcome {
         };
         frames += 1;
         last_tag = Some(*tag);
-        check_display(
+        let checked = check_display(
             &screen,
             snap,
             h,
             w,
             term.size,
-            *after_drop,
-            &format!("render loop, frame of handler invocation {tag} (delivered as #{frames}; {} frame drops before it)", if *after_drop { "one or more" } else { "no" }),
+            &format!("render loop, frame of handler invocation {tag} (delivered as #{frames}; {} frame drops before it)", if after_drop { "one or more" } else { "no" }),
             &cmds,
-        )?;
-        if *after_drop {
+        );
+        let exp = match checked {
+            Ok(exp) => exp,
+            Err(f) => return Err(f),
+        };
+        if after_drop {
             labels.insert("loop:frame-delivered-after-a-drop");
+        }
+        if let Some(must_go) = must_go {
+            // the first frame after a drop: images that were on the screen, that no dropped
+            // frame erased, and that this frame no longer has where they were -- only the
+            // forced clear can have removed them
+            if must_go.iter().any(|pk| !exp.placements.iter().any(|p| (p.key, p.row, p.col) == *pk)) {
+                labels.insert("loop:image-erased-by-forced-clear-of-drop");
+            }
         }
     }
     // the frame of the last invocation was rendered after any drop, so it has been delivered
@@ -881,6 +1073,7 @@ fn run_loop_case(h: usize, w: usize, rl: &RenderLoop) -> Outcome {
         .label_if(dropped, "loop:frames-dropped")
         .label_if(term.resizes > 0, "loop:resize-events")
         .label_if(!skip.is_empty(), "loop:no-frame-invocations")
+        .label_if(!rl.layers.is_empty(), "loop:persistent-layers")
         .label_if(frames >= 2, "frames>=2");
     for l in labels {
         pass = pass.label(l);
@@ -948,22 +1141,36 @@ impl Property for C01 {
         // the render loop drops frames when more than 32 are pending: sessions long enough to
         // get there (a stall of 0..60 polls in a session of 1..60 frames), painting little
         let small = proptest::collection::vec(put(), 0..4);
+        // persistent content (mostly pictures): repainted at every invocation of an interval,
+        // and by some applications only while the terminal keeps up -- `max_pending` is the
+        // number of pending frames up to which the layer is painted: any lag (255), a random
+        // limit, or the limit at which the library itself starts dropping frames (32)
+        let layer_put = (put(), prop_oneof![3 => (0u8..7).prop_map(Kind::Image), 1 => (0u8..2).prop_map(Kind::Glyph), 2 => (0u8..6).prop_map(Kind::Narrow)])
+            .prop_map(|(put, kind)| Put { kind, ..put });
+        let layer = (
+            proptest::collection::vec(layer_put, 1..3),
+            prop_oneof![1 => Just(0u8), 1 => 0u8..24],
+            prop_oneof![1 => 1u8..70, 1 => 30u8..70],
+            prop_oneof![2 => Just(255u8), 1 => 0u8..40, 2 => Just(32u8)],
+        )
+            .prop_map(|(puts, from, len, max_pending)| Layer { puts, from, len, max_pending });
         let looped = (
             1..=maxh.min(5),
             1..=maxw.min(8),
-            proptest::collection::vec(small, 1..60),
+            prop_oneof![2 => proptest::collection::vec(small.clone(), 1..60), 1 => proptest::collection::vec(small, 40..64)],
             proptest::collection::vec(any::<u8>(), 0..3),
-            (0u8..20, 0u8..60),
+            (0u8..20, prop_oneof![2 => 0u8..60, 1 => 33u8..60]),
             proptest::collection::vec(0u8..4, 0..4),
             prop_oneof![1 => Just(Vec::new()), 1 => proptest::collection::vec(0u8..40, 1..4)],
+            prop_oneof![1 => Just(Vec::new()), 2 => proptest::collection::vec(layer, 1..3)],
         )
-            .prop_map(|(height, width, frames, no_frame, stall, deliver, resize_polls)| Case {
+            .prop_map(|(height, width, frames, no_frame, stall, deliver, resize_polls, layers)| Case {
                 height,
                 width,
                 ops: Vec::new(),
-                render_loop: Some(RenderLoop { frames, no_frame, stall, deliver, resize_polls }),
+                render_loop: Some(RenderLoop { frames, no_frame, stall, deliver, resize_polls, layers }),
             });
-        prop_oneof![12 => direct, 1 => looped].boxed()
+        prop_oneof![11 => direct, 1 => looped].boxed()
     }
 
     fn check(&self, case: &Case) -> Outcome {
@@ -975,7 +1182,7 @@ impl Property for C01 {
     }
 
     fn rule(&self) -> String {
-        "terminal 1..7 x 1..11 cells (thorough up to 9x40), cell = 4x2 pixels; history of 1-12 ops (thorough 30): Paint (0-9 cells: narrow chars from {' ',a,b,c,d}, wide chars 世/🤩, 7 pool images reused by Arc (1x1/2x2/1x3 cells, plus four equal-sized windows at different offsets into one backing picture), 2 glyphs; 5 pool faces; positions absolute or right-neighbour / same cell / below the previous put, plus runs of equal coloured blanks), Repaint (previous frame's cells again), Frame (delivered + checked), NoFrame, Clear, Dropped (1-2 frames rendered but never delivered, then the mandatory clear()), Recreate (clear(), screen scrambled, possibly resized, new renderer with clear=true). One case in 13 instead drives the library's own render loop (Terminal::run_render) on a terminal whose output queue is scripted: 1-59 handler invocations painting 0-3 cells each (some answering WaitNoFrame), the terminal accepting 0-3 queued frames per poll and nothing at all during a stall of 0-59 polls, so that the loop's frame dropping (more than 32 frames pending: frames_drop + clear()) takes place, and in half of these cases 1-3 polls reporting a Resize event with the unchanged size (the loop answers with clear() and a new renderer); every frame that reaches the screen is checked, and the frame of the last invocation must be among them. After every delivered frame the reference screen's display must equal (1) the display the surface denotes and (2) the display a brand-new renderer produces for the same surface on a blank screen. non-trivial = >=2 delivered frames, the later differing from the earlier, and one of: wide char in both, image kept/moved/removed, blank run >=5, forced clear on a non-blank screen, dropped frames, re-creation; render-loop cases: a frame delivered after the loop dropped frames".into()
+        "terminal 1..7 x 1..11 cells (thorough up to 9x40), cell = 4x2 pixels; history of 1-12 ops (thorough 30): Paint (0-9 cells: narrow chars from {' ',a,b,c,d}, wide chars 世/🤩, 7 pool images reused by Arc (1x1/2x2/1x3 cells, plus four equal-sized windows at different offsets into one backing picture), 2 glyphs; 5 pool faces; positions absolute or right-neighbour / same cell / below the previous put, plus runs of equal coloured blanks), Repaint (previous frame's cells again), Frame (delivered + checked), NoFrame, Clear, Dropped (1-2 frames rendered but never delivered, then the mandatory clear()), Recreate (clear(), screen scrambled, possibly resized, new renderer with clear=true). One case in 12 instead drives the library's own render loop (Terminal::run_render) on a terminal whose output queue is scripted: 1-63 handler invocations (a third of the sessions at least 40) painting 0-3 cells each (some answering WaitNoFrame), in two thirds of the sessions on top of 1-2 persistent layers (1-2 cells, mostly pictures/glyphs, painted again at every invocation of an interval from..from+len, either whatever the lag or only while Terminal::frames_pending() is at most a limit: random 0-39, or 32, the number of pending frames above which the loop itself drops frames) so that an image stays on the screen unchanged over many frames and disappears at an arbitrary round, including the round that drops frames; the terminal accepting 0-3 queued frames per poll and nothing at all during a stall of 0-59 polls (a third of the sessions at least 33), so that the loop's frame dropping (more than 32 frames pending: frames_drop + clear()) takes place, and in half of these cases 1-3 polls reporting a Resize event with the unchanged size (the loop answers with clear() and a new renderer); every frame that reaches the screen is checked, and the frame of the last invocation must be among them. A stale image is attributed to the listed design limit (signature display/stale-image-after-dropped-frames) only if the ImageErase of that very placement (image, cell) was issued in a frame that was then dropped (Dropped op / chunks discarded by frames_drop) and the placement has not been drawn again since; a frame is reported under that signature only if it has no other mismatch. Any other stale image is a violation: display/stale-image-survives-forced-clear when it was drawn before a forced clear (clear(), frame drop + clear(), re-creation, Resize) issued since, display/stale-image otherwise. A second listed finding has a signature of its own (display/stale-image-resize-clear-discarded-by-drop): an image whose erase was issued by the clear() answering a Resize event and discarded by frames_drop in the same round of the render loop. After every delivered frame the reference screen's display must equal (1) the display the surface denotes and (2) the display a brand-new renderer produces for the same surface on a blank screen. non-trivial = >=2 delivered frames, the later differing from the earlier, and one of: wide char in both, image kept/moved/removed, blank run >=5, forced clear on a non-blank screen, dropped frames, re-creation; render-loop cases: a frame delivered after the loop dropped frames. Labels of the render-loop sessions: loop:persistent-layers, loop:image-erase-in-dropped-frame (the design limit's precondition), loop:image-erased-by-forced-clear-of-drop (an image on the screen that no dropped frame erased and that the first frame after the drop no longer has: only the loop's forced clear can remove it)".into()
     }
 
     fn assumptions(&self) -> Vec<String> {
@@ -985,6 +1192,7 @@ impl Property for C01 {
             "a wide character whose right half lies under an image is terminal specific: those two cells are exempt from oracle (1) and judged by the differential oracle only".into(),
             "image identity = pixel content hash + position; glyph rasterisation is trusted to be deterministic".into(),
             "zero-width characters and wide characters in the last column are outside the domain".into(),
+            "render loop: the scripted terminal's frames_drop discards every queued chunk but the one in flight and the chunk being filled (as IOQueue::clear_but_last does); commands discarded that way never reach the reference screen; the statement's 'skipped frames' and 'forced clear' clauses are taken to cover the loop's frame dropping, except for the listed design limit (an ImageErase that was itself part of a dropped frame)".into(),
         ]
     }
 }
